@@ -21,7 +21,11 @@ var c20Events = []string{
 	"A.connect(v5,clean0,expiry100)", "B.connect(v3,clean1)", "A.subscribe(t,q1)", "B.subscribe(t,q0)",
 	"B.publish(q0)", "B.publish(q1)", "A.publish(q2)+PUBREL", "A.ack-oldest", "A.pingreq", "A.DISCONNECT", "A.abrupt-close", "B.close",
 	"advance(21s)", "TerminateSession(A)", "A.takeover(clean0)", "A.unsubscribe(t)", "A.connect(v5,clean1,expiry100)", "A.duplicate-PUBACK",
+	"X.tcp-open-close", "X.first-packet-PINGREQ", "X.CONNECT(v5,auth-method-without-OnAuth)-refused",
 }
+
+// c20FailedAlpha: the sub-alphabet of the tree about connections that never attach.
+var c20FailedAlpha = []int{18, 19, 20, 1, 11, 0, 9, 12}
 
 var c20TypeField = map[byte]string{1: "Connect", 2: "Connack", 3: "Publish", 4: "Puback", 5: "Pubrec", 6: "Pubrel", 7: "Pubcomp", 8: "Subscribe", 9: "Suback", 10: "Unsubscribe", 11: "Unsuback", 12: "Pingreq", 13: "Pingresp", 14: "Disconnect", 15: "Auth"}
 
@@ -346,6 +350,31 @@ func c20Run(c *explore.Ctx, cf c20Cfg, seq []int) int {
 				A.online = false
 				A.ackedIDs = nil
 				sessionEnds(&A, "a", "Normal")
+			case 18, 19, 20:
+				x := w.Dial(fmt.Sprintf("X%d", i))
+				x.Version = refmqtt.V311
+				switch e {
+				case 19:
+					x.Send(&refmqtt.Packet{Type: refmqtt.PINGREQ})
+				case 20:
+					x.Version = refmqtt.V5
+					x.Send(harness.ConnectPacket(harness.ConnectOpts{ClientID: "x", Clean: true, Version: refmqtt.V5, Props: &refmqtt.Props{AuthMethod: harness.Str("none")}}))
+				}
+				vsched.Settle()
+				x.Pump()
+				if e != 18 && (len(x.Inbox) != 1 || x.Inbox[0].P == nil || x.Inbox[0].P.Type != refmqtt.CONNACK || x.Inbox[0].P.Code == 0) {
+					c.Violate("connect", "unattachable-connection-not-refused", cas(), "one failing CONNACK", fmt.Sprint(len(x.Inbox)))
+					return
+				}
+				x.Close()
+				vsched.Settle()
+				// everything exchanged on it counts globally, for no client
+				for _, t := range x.Sent {
+					T.packet("global", true, t.Type, t.Len)
+				}
+				for _, r := range x.Inbox {
+					T.packet("global", false, r.P.Type, r.Len)
+				}
 			case 15:
 				if !online(&A) {
 					ok = false
@@ -547,10 +576,13 @@ func c20Gauges(q []c20Q) (queued, inflight uint64) {
 
 func runC20(c *explore.Ctx) {
 	c.Level = "model_checking"
-	c.Rule = "E2: every sequence of the 16-event alphabet (connect v5 persistent / v3 clean, subscribe, publish QoS0/1/2 with PUBREL, ack, PINGREQ, DISCONNECT, abrupt close, clock advance, TerminateSession, take-over, unsubscribe) over two clients up to the depth, for two broker configurations (default; max_queued 2 / max_inflight 1), on a fresh in-process broker; at every quiescent point every uint64 leaf of GetGlobalStats()/GetClientStats() (packets and bytes per type and direction, per-QoS messages received/sent, queued and in-flight gauges, connection/session counters and gauges) is compared with the harness's own packet log (wire lengths) and session/queue model."
+	c.Rule = "E2: every sequence of the 16-event alphabet (connect v5 persistent / v3 clean, subscribe, publish QoS0/1/2 with PUBREL, ack, PINGREQ, DISCONNECT, abrupt close, clock advance, TerminateSession, take-over, unsubscribe) over two clients up to the depth, plus a tree (depth-1) over connections that never attach (TCP open/close, first packet not CONNECT, CONNECT refused) mixed with ordinary connects and closes, for two broker configurations (default; max_queued 2 / max_inflight 1), on a fresh in-process broker; at every quiescent point every uint64 leaf of GetGlobalStats()/GetClientStats() (packets and bytes per type and direction, per-QoS messages received/sent, queued and in-flight gauges, connection/session counters and gauges) is compared with the harness's own packet log (wire lengths) and session/queue model."
 	c.Trusted = []string{"vsched default schedule", "refmqtt (packet lengths are the encoded lengths actually exchanged)"}
 	c.Assumptions = []string{"per-client statistics restart when the session is terminated (the broker deletes them); global counters keep the traffic of terminated sessions", "dropped-message counters are checked by C10/C12/C13 through the drop hook, not here"}
 	if rc := replayCase(c); rc != nil {
+		if concReplay(c, rc, "C20") {
+			return
+		}
 		c20Run(c, c20Cfg{int(rc["max_queued"].(float64)), uint16(rc["max_inflight"].(float64))}, intsOf(rc["seq"]))
 		return
 	}
@@ -559,12 +591,13 @@ func runC20(c *explore.Ctx) {
 		depth = 5
 	}
 	c.Extra["depth"] = depth
+	concPubSubPhase(c, "C20")
 	// directed non-initial state: A subscribed and offline, B online
 	for pi, prefix := range [][]int{{0, 2, 10, 1}, {0, 2, 1, 5}} {
 		prefix := prefix
 		for _, cf := range []c20Cfg{{1000, 100}, {2, 1}} {
 			cf := cf
-			treeUnits(c, fmt.Sprintf("tree-directed%d-q%d-i%d", pi, cf.maxQueued, cf.maxInflight), len(c20Events), depth-1, func(seq []int) int {
+			treeUnits(c, fmt.Sprintf("tree-directed%d-q%d-i%d", pi, cf.maxQueued, cf.maxInflight), c20MainN, depth-1, func(seq []int) int {
 				full := append(append([]int{}, prefix...), seq...)
 				n := c20Run(c, cf, full) - len(prefix)
 				if n < 0 {
@@ -575,9 +608,16 @@ func runC20(c *explore.Ctx) {
 			})
 		}
 	}
+	treeUnits(c, "tree-failed-connections", len(c20FailedAlpha), depth-1, func(seq []int) int {
+		full := make([]int, len(seq))
+		for i, e := range seq {
+			full[i] = c20FailedAlpha[e]
+		}
+		return c20Run(c, c20Cfg{1000, 100}, full)
+	})
 	for _, cf := range []c20Cfg{{1000, 100}, {2, 1}} {
 		cf := cf
-		treeUnits(c, fmt.Sprintf("tree-q%d-i%d", cf.maxQueued, cf.maxInflight), len(c20Events), depth, func(seq []int) int {
+		treeUnits(c, fmt.Sprintf("tree-q%d-i%d", cf.maxQueued, cf.maxInflight), c20MainN, depth, func(seq []int) int {
 			n := c20Run(c, cf, seq)
 			if n == len(seq) && c.Get("executions")%2500 == 0 {
 				names := make([]string, len(seq))
@@ -590,3 +630,7 @@ func runC20(c *explore.Ctx) {
 		})
 	}
 }
+
+// c20MainN: the first c20MainN events form the alphabet of the main trees; the later
+// ones only occur in the failed-connection tree.
+const c20MainN = 18
